@@ -193,6 +193,10 @@ func (sc *Scen) stepNamed(n string) {
 	if extStep(sc, n) { // per-property step names (fsm_ext.go)
 		return
 	}
+	// steps registered with registerStep (fsm_ext_f1.go); additive hook
+	if runExtStep(sc, n) {
+		return
+	}
 	// "tip=anchor+N": set the chain tip relative to the swap's persisted anchor / start height
 	if strings.HasPrefix(n, "tip=anchor") {
 		var off int64
@@ -681,13 +685,15 @@ func runScenario(seed uint64, idx int, dbpath string, focus string) (sc *Scen, e
 		sc.role, sc.chain, sc.clean = d.role, d.chain, true
 		env.SwapsAllowed, env.PeerAllowed, env.PeerSuspicious, env.LiquidEnabled, env.BitcoinEnabled, env.MinAmountMsat = true, true, false, true, true, 100000*1000
 		for _, st := range d.steps {
-			if st != "start" && st != "request" && sc.id == nil {
+			if st != "start" && st != "request" && sc.id == nil && !extStepRunsFresh(st) {
 				break
 			}
 			sc.stepNamed(st)
 		}
 		return sc, nil
 	}
+	// generator focus registered by per-property files (registerFocus in fsm_ext.go); additive hook
+	applyFocus(sc, focus, idx)
 	if sc.role == "out_sender" || sc.role == "in_sender" {
 		sc.stepStart()
 	} else {
